@@ -92,6 +92,34 @@ class Setup(object):
         self.multi = Application([(pm + '/m', StaticApplication([self.root1, self.root2]))], slash_mode=mode)
         self.stacked = Application([(pm + '/k', StaticApplication(self.root1)), (pm + '/k', StaticApplication([self.root2]))], slash_mode=mode)
         self.pm = pm
+        # the same two directories listed the other way round (the order the caller gives is the search order, whatever
+        # the directories are called), and once more with a duplicate and a trailing separator
+        self.reversed = Application([(pm + '/r', StaticApplication([self.root2, self.root1]))], slash_mode=mode)
+        self.reversed2 = Application([(pm + '/r', StaticApplication([self.root2 + os.sep, self.root1, self.root2]))], slash_mode=mode)
+
+
+def check_reversed(ctx, setup):
+    """every file of either directory through the application whose search order is [root2, root1]"""
+    for rel in sorted(set(FILES1) | set(FILES2)):
+        want = model_file(rel.split('/'), [FILES2, FILES1])
+        for app in (setup.reversed, setup.reversed2):
+            path = setup.pm + '/r/' + rel
+            r = call(app, path)
+            ctx.requests += 1
+            case = {'segs': rel.split('/'), 'which': 'reversed'}
+            if r.exc is not None:
+                ctx.mismatch('static-raises', 'GET %r (search order root2, root1): %r' % (path, r.exc), case)
+                return
+            # a name that is a directory in the first search path and a file in the second: refused or passed on, never
+            # served from the first; otherwise the first directory that has the file wins
+            if r.status == 200 and r.body != want:
+                ctx.mismatch('wrong-bytes', 'GET %r with search order [root2, root1]: served %r..., the first search directory that has it holds %r...'
+                             % (path, r.body[:30], (want or b'')[:30]), case)
+                return
+            if r.status != 200 and rel in FILES2 and not any(k.startswith(rel + '/') for k in FILES1):
+                ctx.mismatch('file-not-served', 'GET %r with search order [root2, root1]: regular file of the first search directory answered %s' % (path, r.status), case)
+                return
+    ctx.event('reversed-search-order-checked')
 
 
 def check_response(ctx, r, segs, what, rc, fault=False, method='GET'):
@@ -177,6 +205,10 @@ def run_enum(spec, ctx):
     ctx.exhaustive = True
     L = spec['L']
     try:
+        try:
+            check_reversed(ctx, setup)
+        except Exception as e:
+            ctx.classify_exc(e, {'segs': [], 'which': 'reversed'}, 'path')
         for first in spec['firsts']:
             for n in range(0, L):
                 for rest in itertools.product(SEGS, repeat=n):
@@ -583,6 +615,8 @@ def replay(case, kind, ctx):
             fault_case(ctx, setup, app, path, case['segs'], case['fault_at'], getattr(errno, case['errno']), hdrs, case)
         elif 'ims' in case or case.get('method') == 'HEAD':
             run_ims(ctx, setup)
+        elif case.get('which') == 'reversed':
+            check_reversed(ctx, setup)
         else:
             one(ctx, setup, case.get('which', 'multi'), case['segs'], case)
     finally:
